@@ -5,6 +5,7 @@
 package dispatcher
 
 //@ import netip "net/netip"
+//@ import gopacket "github.com/gopacket/gopacket"
 //@ import slayers "github.com/scionproto/scion/pkg/slayers"
 
 //@ # ---- C44: the shim never reflects traffic to unintended hosts.
@@ -71,12 +72,36 @@ package dispatcher
 //@ # echo/traceroute replies, the only thing a non-dispatcher shim ever sends - or (b) unchanged, to a port on the very
 //@ # host address the datagram was addressed to
 //@ # building the reply (reversal of the SCION header, SCMP type) is not interpreted here
+//@ # assumed: reversing a path happens inside the path object (and the packet bytes it aliases), not in the Server
+//@ import path "github.com/scionproto/scion/pkg/slayers/path"
+//@ iface path.Path.Reverse
+//@   modifies nothing
+//@ # the reply goes back where the request came from: source and destination ISD-AS are swapped (the host addresses
+//@ # are re-packed from the parsed ones: PackAddr/ParseAddr are not interpreted) and the path is the reversed one
+//@ func (*Server).reverseSCION
+//@   props C44
+//@   nosafety
+//@   opaque (*github.com/scionproto/scion/pkg/slayers/path/scion.Raw).Reverse
+//@   callmod (*github.com/scionproto/scion/pkg/slayers/path/scion.Raw).Reverse: nothing
+//@   requires s != nil
+//@   modifies s.scionLayer
+//@   ensures result == nil ==> s.scionLayer.DstIA == old(s.scionLayer.SrcIA) && s.scionLayer.SrcIA == old(s.scionLayer.DstIA)
+//@ # an echo request is answered with an echo reply, a traceroute request with a traceroute reply, nothing else is
+//@ # answered (assumed: gopacket registered the SCMP layer types under distinct numbers)
+//@ macro ltDistinct(z) = (slayers.LayerTypeSCMPEcho != slayers.LayerTypeSCMPTraceroute && slayers.LayerTypeSCMPEcho != gopacket.LayerTypePayload && slayers.LayerTypeSCMPTraceroute != gopacket.LayerTypePayload && slayers.LayerTypeSCMPEcho != slayers.LayerTypeSCMPDestinationUnreachable && slayers.LayerTypeSCMPEcho != slayers.LayerTypeSCMPPacketTooBig && slayers.LayerTypeSCMPEcho != slayers.LayerTypeSCMPParameterProblem && slayers.LayerTypeSCMPEcho != slayers.LayerTypeSCMPExternalInterfaceDown && slayers.LayerTypeSCMPEcho != slayers.LayerTypeSCMPInternalConnectivityDown && slayers.LayerTypeSCMPTraceroute != slayers.LayerTypeSCMPDestinationUnreachable && slayers.LayerTypeSCMPTraceroute != slayers.LayerTypeSCMPPacketTooBig && slayers.LayerTypeSCMPTraceroute != slayers.LayerTypeSCMPParameterProblem && slayers.LayerTypeSCMPTraceroute != slayers.LayerTypeSCMPExternalInterfaceDown && slayers.LayerTypeSCMPTraceroute != slayers.LayerTypeSCMPInternalConnectivityDown)
 //@ func (*Server).replyToSCMPInfoRequest
-//@   trusted
+//@   props C44
+//@   nosafety
+//@   inlines (*github.com/scionproto/scion/pkg/slayers.SCMP).NextLayerType
+//@   requires s != nil
+//@   requires ltDistinct(0)
+//@   let ty = uint8(s.scmpLayer.TypeCode >> 8)
 //@   modifies s.scionLayer, s.scmpLayer
+//@   ensures result == nil ==> ((ty == 128 || ty == 129) && s.scmpLayer.TypeCode == 129<<8) || ((ty == 130 || ty == 131) && s.scmpLayer.TypeCode == 131<<8)
+//@   ensures result == nil ==> s.scionLayer.NextHdr == slayers.L4SCMP && s.scionLayer.DstIA == old(s.scionLayer.SrcIA) && s.scionLayer.SrcIA == old(s.scionLayer.DstIA)
 //@ func (*Server).processMsgNextHop
 //@   props C44
-//@   requires s != nil && s == cur && s.parser != nil && s.outBuffer != nil
+//@   requires s != nil && s == cur && s.parser != nil && s.outBuffer != nil && ltDistinct(0)
 //@   ensures result0 != nil && result1.ip.z.value != nil ==> result1 == prevHop || unmapped(result1.ip) == unmapped(underlay)
 //@   ensures result0 != nil && result1.ip.z.value != nil && result1 != prevHop ==> sameArray(result0, buf) && len(result0) == len(buf)
 //@   ensures result0 != nil && result1.ip.z.value != nil && !s.isDispatcher ==> result1 == prevHop
